@@ -16,17 +16,21 @@ open GeoVerif.Series Gen.GeodSeries
 def R1 : Ops Poly := Ops.poly (N + 1)
 
 /-- `B1(φ) = Σ_{l=1}^{N} C1_l sin lφ`, `φ = 2σ` -/
-def b1 : Trig Poly := Trig.sinSeries R1 ((List.range N).map fun i => Poly.norm (cBlock C1f (i + 1)))
+def sinTable (tbl : List Rat) : Trig Poly := Trig.sinSeries R1 ((List.range N).map fun i => Poly.norm (cBlock tbl (i + 1)))
+
+def b1 : Trig Poly := sinTable C1f
 
 /-- `B1′(φ) = Σ_{l=1}^{N} C1′_l sin lφ`, `φ = 2τ` -/
-def b1p : Trig Poly := Trig.sinSeries R1 ((List.range N).map fun i => Poly.norm (cBlock C1pf (i + 1)))
+def b1p : Trig Poly := sinTable C1pf
 
 /-- with `τ = σ + B1(2σ)`: `σ − τ + … = B1(2σ) + B1′(2σ + 2·B1(2σ))`, the Taylor shift taken to order `N`
     (all further terms are `O(ε^{N+1})` because `B1 = O(ε)`) -/
-def revertResidual : Trig Poly :=
+def revertResidual (b1 b1p : Trig Poly) : Trig Poly :=
   Trig.add R1 b1 (Trig.shift R1 N b1p (Trig.smul R1 2 b1))
 
-def checkC1p : Bool := Trig.isZero R1 revertResidual
+def checkC1pOf (c1 c1p : List Rat) : Bool := Trig.isZero R1 (revertResidual (sinTable c1) (sinTable c1p))
+
+def checkC1p : Bool := checkC1pOf C1f C1pf
 
 /-! ### bivariate tables: layout -/
 
@@ -43,21 +47,27 @@ def ordersC4 (lo : Nat) : List Nat := ((List.range (N - lo)).map fun i => let j 
 def blockLen (os : List Nat) : Nat := (os.map (· + 2)).sum
 
 /-- `A3(n, ε)` as in `A3coeff` + `A3f` -/
-def a3 : Poly2 := (readBlocks A3coeff (ordersMin 0)).reverse
+def a3Of (tbl : List Rat) : Poly2 := (readBlocks tbl (ordersMin 0)).reverse
+
+def a3 : Poly2 := a3Of A3coeff
 
 def a3Size : Nat := blockLen (ordersMin 0)
 
 /-- `C3_l(n, ε)`, `1 ≤ l < N`, as in `C3coeff` + `C3f`:  `ε^l · polyval(N−l−1, …, ε)` -/
-def c3 (l : Nat) : Poly2 :=
+def c3Of (tbl : List Rat) (l : Nat) : Poly2 :=
   let o := ((List.range (l - 1)).map fun i => blockLen (ordersMin (i + 1))).sum
-  List.replicate l [] ++ (readBlocks (C3coeff.drop o) (ordersMin l)).reverse
+  List.replicate l [] ++ (readBlocks (tbl.drop o) (ordersMin l)).reverse
+
+def c3 (l : Nat) : Poly2 := c3Of C3coeff l
 
 def c3Size : Nat := ((List.range (N - 1)).map fun i => blockLen (ordersMin (i + 1))).sum
 
 /-- `C4_l(n, ε)`, `0 ≤ l < N`, as in `C4coeff` + `C4f` -/
-def c4 (l : Nat) : Poly2 :=
+def c4Of (tbl : List Rat) (l : Nat) : Poly2 :=
   let o := ((List.range l).map fun i => blockLen (ordersC4 i)).sum
-  List.replicate l [] ++ (readBlocks (C4coeff.drop o) (ordersC4 l)).reverse
+  List.replicate l [] ++ (readBlocks (tbl.drop o) (ordersC4 l)).reverse
+
+def c4 (l : Nat) : Poly2 := c4Of C4coeff l
 
 def c4Size : Nat := ((List.range N).map fun i => blockLen (ordersC4 i)).sum
 
@@ -81,7 +91,7 @@ def checkW (M : Nat) : Bool :=
     (Trig.cosSeries [Poly2.trunc M (Poly2.ofEps [1, 0, 1]), Poly2.trunc M (Poly2.ofEps [0, -2])] )
 
 /-- the integrand of I3 as the table has it: `A3·(1 + Σ_l 2l·C3_l cos 2lσ)` (= d/dσ of `A3 (σ + Σ C3_l sin 2lσ)`) -/
-def i3Integrand : Trig Poly2 :=
+def i3Integrand (a3 : Poly2) (c3 : Nat → Poly2) : Trig Poly2 :=
   Trig.cosSeries (a3 :: (List.range (N - 1)).map fun (i : Nat) =>
     R3.smul (2 * ((i : Rat) + 1)) (R3.mul a3 (c3 (i + 1))))
 
@@ -92,8 +102,10 @@ def i3Denominator : Trig Poly2 :=
     (Trig.scale R3 (Poly2.ofN [1, -1]) (wSer N))
 
 /-- `integrand · ((1 + n)(1 − ε) + (1 − n) W) = 2(1 − ε)` modulo total degree `N` -/
-def checkA3C3 : Bool :=
-  Trig.eq R3 (Trig.mul R3 i3Integrand i3Denominator) (Trig.const (Poly2.ofEps [2, -2]))
+def checkA3C3Of (a3t c3t : List Rat) : Bool :=
+  Trig.eq R3 (Trig.mul R3 (i3Integrand (a3Of a3t) (c3Of c3t)) i3Denominator) (Trig.const (Poly2.ofEps [2, -2]))
+
+def checkA3C3 : Bool := checkA3C3Of A3coeff C3coeff
 
 /-! ### I4:  C4 -/
 
@@ -134,14 +146,16 @@ def tOfTrig (y : Trig Poly2) : Trig Poly2 :=
     (⟨[], []⟩, Trig.const R4.one)).1
 
 /-- `−dI4/dσ = Σ_l (2l + 1) C4_l sin((2l + 1)σ)` as the table has it -/
-def i4Integrand : Trig Poly2 :=
+def i4Integrand (c4 : Nat → Poly2) : Trig Poly2 :=
   ⟨[], (List.range (2 * N)).map fun (m : Nat) => if m % 2 == 1 then R4.smul (m : Rat) (c4 (m / 2)) else []⟩
 
 /-- `[Σ_l (2l+1) C4_l sin((2l+1)σ)] · (e′² − k² sin²σ) = [t(e′²) − t(k² sin²σ)] · sin σ / 2`  modulo total degree `N + 1` -/
-def checkC4 : Bool :=
+def checkC4Of (c4t : List Rat) : Bool :=
   Trig.eq R4
-    (Trig.mul R4 i4Integrand (Trig.sub R4 (Trig.const ep2Ser) ySer))
+    (Trig.mul R4 (i4Integrand (c4Of c4t)) (Trig.sub R4 (Trig.const ep2Ser) ySer))
     (Trig.mul R4 (Trig.sub R4 (Trig.const (Poly2.compose (N + 1) (tSer (N + 1)) ep2Ser)) (tOfTrig ySer))
       (Trig.sinSeries R4 [R4.smul (1 / 2) R4.one]))
+
+def checkC4 : Bool := checkC4Of C4coeff
 
 end GeoVerif.Series.Geod
